@@ -67,6 +67,8 @@ def instances(tier):
                     out.append({"gen": g, "cls": c, "n": 16 if not (g == 4 and c in ("AcTimerStatus", "AcTimerControl", "AcStatus")) else 4, "free_at": 7})
             else:
                 out.append({"gen": g, "cls": c, "n": 1})
+        # two messages of one class held together for a down link and flushed in one go: each goes out as its own frame
+        out.append({"gen": g, "cls": "pair", "n": 2})
     return out
 
 
@@ -397,7 +399,66 @@ def _is_empty_identified(sent, got, ident):
     return name.endswith("Request")
 
 
+def _run_pair(ctx, p):
+    """Two different messages of the same class (every one of the 18 catalogue classes, solver-chosen; for the text-carrying
+    ones the two differ in length) are accepted while the link is down and flushed together when it comes up. The wire holds
+    the reference frames of exactly these two, and fed back into the receive path they parse back as the two messages."""
+    from . import catalog
+    g = Gen(p["gen"])
+    S = socket_mod()
+    cat = catalog.catalog(g)
+    entry = cat[ctx.choice("entry", len(cat))]
+    ia, ib = 1, 2
+    a, b = entry[1](ia), entry[1](ib)
+    detail = {"cls": entry[0]}
+    with Rig(ctx, g) as rig:
+        rig.net.on_connect = lambda net, n: ("refuse",) if n == 0 else ("accept", 0)
+        sent = []
+
+        async def go():
+            await rig.sock.open_socket()
+            import asyncio
+            await asyncio.sleep(0.5)
+            for m in (a, b):
+                try:
+                    await rig.sock.send(m, S.RETRY_IDEMPOTENT)
+                    sent.append("ok")
+                except Exception as e:  # noqa: BLE001
+                    sent.append(repr(e))
+
+        rig.spawn(go())
+        rig.loop.vt_run(3.5)
+        conn = rig.net.conns[0] if rig.net.conns else None
+        ctx.check(sent == ["ok", "ok"] and conn is not None, "delivered_once", detail=dict(detail, sent=sent))
+        wire = [int(x) for x in conn.written()]
+        try:
+            frames = framing.parse_stream(g.n, wire)
+        except ValueError as e:            # the reference receiver cannot read the wire at all
+            frames = []
+            detail = dict(detail, reference_receiver=str(e))
+        ctx.observe("frames", len(frames))
+        ctx.check(len(frames) == 2, "lengths_agree", detail=dict(detail, frames=len(frames), why="the reference receiver does not find two frames on the wire"))
+        datas = [bytes(f["data"]) for f in frames]
+        ctx.check(datas == [bytes(entry[3](ia)), bytes(entry[3](ib))], "lengths_agree",
+                  detail=dict(detail, wire=[d.hex() for d in datas], reference=[bytes(entry[3](ia)).hex(), bytes(entry[3](ib)).hex()]))
+        conn.send(bytes(wire))
+        rig.loop.vt_run(4.5)
+        got = [m for _, h, m in rig.received]
+        ctx.check(len(got) == 2 and len(rig.net.conns) == 1, "delivered_once", detail=dict(detail, received=len(got), conns=len(rig.net.conns)))
+        # what each reference frame reads as on its own (catalogue instances need not list every record the decoder returns)
+        for i, have in zip((ia, ib), got):
+            data = bytes(entry[3](i))
+            hdr = g.Header(catalog.to_address(entry[2]), 0xB0, 0, entry[2], len(data))
+            want = g.reg.get_decoder(entry[2]).decode(data, hdr).message
+            ctx.check(want == have, "message_equal", detail=dict(detail, got=repr(getattr(have, "sub_message", have))[:160]))
+        ctx.check(not rig.task_failures(), "delivered_once", detail="unhandled exception")
+    for lab in expect_labels("quick"):
+        ctx.reach(lab)
+
+
 def run(ctx, p):
+    if p["cls"] == "pair":
+        return _run_pair(ctx, p)
     g = Gen(p["gen"])
     S = socket_mod()
     msg, ident = build(ctx, g, p["cls"], p["n"], p.get("free_at"))
